@@ -7,9 +7,15 @@ package raftpb
 
 //@ func GetEntrySliceInMemSize [C19]
 
+// sumlim(p, k): the sum of the advertised upper limits (128 + payload length) of the first k entries
+// of the slice at p -- an uninterpreted function; its defining recurrence (and the monotonicity that
+// follows from it by induction) is the predicate sumdef, assumed where the sum is needed
+//@ pred sumdef(ents []Entry) := uf("sumlim", ptr(ents), 0) == 0 && (forall k int :: 0 <= k && k < len(ents) ==> uf("sumlim", ptr(ents), k + 1) == uf("sumlim", ptr(ents), k) + 128 + len(ents[k].Cmd)) && (forall k int :: 0 <= k && k <= len(ents) ==> uf("sumlim", ptr(ents), k) >= 0 && uf("sumlim", ptr(ents), k) <= uf("sumlim", ptr(ents), len(ents)))
 //@ func GetEntrySliceSize [C19 C13]
+//@ free requires sumdef(ents) && uf("sumlim", ptr(ents), len(ents)) < 4611686018427387904
 //@ ensures len(ents) == 0 ==> result == 0
-//@ loop 1 invariant $i == 0 - 1 ==> sz == 0
+//@ ensures result == uf("sumlim", ptr(ents), len(ents))
+//@ loop 1 invariant sz == uf("sumlim", ptr(ents), $i + 1)
 
 // ---------------------------------------------------------------- C13: sizes of the hand-written Entry codec (Int mode, exact machine arithmetic)
 
@@ -91,13 +97,69 @@ package raftpb
 
 // the advertised size of the Tan Update record covers the hard state's upper limit, every entry's
 // upper limit and the snapshot record
+// ---- snapshot file records and snapshot records (hand-optimised protobuf codecs): Size() is the exact
+// encoded size, MarshalTo writes exactly that many bytes and never indexes outside a buffer of that size
+//@ pred (m *SnapshotFile) sfsize() := 1 + strlen(m.Filepath) + vlen(strlen(m.Filepath)) + 1 + vlen(m.FileSize) + 1 + vlen(m.FileId) + ite(m.Metadata != nil, 1 + len(m.Metadata) + vlen(len(m.Metadata)), 0)
+//@ pred (m *SnapshotFile) small() := strlen(m.Filepath) < 1099511627776 && len(m.Metadata) < 1099511627776
+//@ func (m *SnapshotFile) Size [C13]
+//@ requires m != nil ==> m.small()
+//@ ensures m != nil ==> result == m.sfsize()
+//@ ensures m == nil ==> result == 0
+//@ func (m *SnapshotFile) MarshalTo [C13]
+//@ requires len(dAtA) >= m.sfsize() && m.small()
+//@ modifies elems(dAtA)
+//@ ensures result0 == m.sfsize() && result1 == nil
+
+// the membership record (four maps) is the generated protobuf codec: its size is an uninterpreted
+// function of the object, MarshalTo is assumed to write exactly that many bytes
+//@ func (m *Membership) Size [C13]
+//@ trusted gogo-generated codec of a map-bearing message (assumed)
+//@ ensures result == uf("memsz", m) && result >= 0 && result < 1099511627776
+//@ func (m *Membership) MarshalTo [C13]
+//@ trusted gogo-generated codec of a map-bearing message (assumed): writes exactly Size() bytes
+//@ requires len(dAtA) >= uf("memsz", m)
+//@ modifies elems(dAtA)
+//@ ensures result1 == nil ==> result0 == uf("memsz", m)
+// sumfiles(p, k): encoded size of the first k file records (tag + length prefix + record); defining
+// recurrence and its monotonicity are assumed where the sum is needed (filesdef)
+//@ pred filesdef(fs []*SnapshotFile) := uf("sumfiles", ptr(fs), 0) == 0 && (forall k int :: 0 <= k && k < len(fs) ==> fs[k] != nil && fs[k].small() && uf("sumfiles", ptr(fs), k + 1) == uf("sumfiles", ptr(fs), k) + 1 + fs[k].sfsize() + vlen(fs[k].sfsize())) && (forall k int :: 0 <= k && k <= len(fs) ==> uf("sumfiles", ptr(fs), k) >= 0 && uf("sumfiles", ptr(fs), k) <= uf("sumfiles", ptr(fs), len(fs))) && uf("sumfiles", ptr(fs), len(fs)) < 1099511627776
+//@ pred (m *Snapshot) snsize() := 1 + strlen(m.Filepath) + vlen(strlen(m.Filepath)) + 1 + vlen(m.FileSize) + 1 + vlen(m.Index) + 1 + vlen(m.Term) + 1 + uf("memsz", ptr(m.Membership)) + vlen(uf("memsz", ptr(m.Membership))) + uf("sumfiles", ptr(m.Files), len(m.Files)) + ite(m.Checksum != nil, 1 + len(m.Checksum) + vlen(len(m.Checksum)), 0) + 2 + 1 + vlen(m.ShardID) + 1 + vlen(ite(m.Type < 0, m.Type + 18446744073709551616, m.Type)) + 2 + 1 + vlen(m.OnDiskIndex) + 2
+//@ pred (m *Snapshot) small() := strlen(m.Filepath) < 1099511627776 && len(m.Checksum) < 1099511627776 && uf("memsz", ptr(m.Membership)) >= 0 && uf("memsz", ptr(m.Membership)) < 1099511627776
+
 //@ func (m *Snapshot) Size [C13]
-//@ trusted gogo-generated codec of a map-bearing message (assumed; bounded stand-in only)
-//@ ensures result >= 0 && result <= 1099511627776
+//@ free requires m != nil ==> filesdef(m.Files) && m.small()
+//@ ensures m != nil ==> result == m.snsize()
+//@ ensures result >= 0 && result <= 8796093022208
+//@ loop 1 invariant n == 1 + strlen(m.Filepath) + vlen(strlen(m.Filepath)) + 1 + vlen(m.FileSize) + 1 + vlen(m.Index) + 1 + vlen(m.Term) + 1 + uf("memsz", ptr(m.Membership)) + vlen(uf("memsz", ptr(m.Membership))) + uf("sumfiles", ptr(m.Files), $i + 1)
+//@ func (m *Snapshot) MarshalTo [C13]
+//@ free requires filesdef(m.Files) && m.small()
+//@ requires len(dAtA) >= m.snsize()
+//@ modifies elems(dAtA)
+//@ ensures result1 == nil ==> result0 == m.snsize()
+//@ loop 1 modifies elems(dAtA)
+//@ loop 1 invariant i == 1 + strlen(m.Filepath) + vlen(strlen(m.Filepath)) + 1 + vlen(m.FileSize) + 1 + vlen(m.Index) + 1 + vlen(m.Term) + 1 + uf("memsz", ptr(m.Membership)) + vlen(uf("memsz", ptr(m.Membership))) + uf("sumfiles", ptr(m.Files), $i + 1)
 
 //@ func (u *Update) SizeUpperLimit [C13]
+//@ free requires sumdef(u.EntriesToSave) && uf("sumlim", ptr(u.EntriesToSave), len(u.EntriesToSave)) < 4611686018427387904
 //@ ensures len(u.EntriesToSave) == 0 && u.Snapshot.Index == 0 ==> result == 22 + 56 + 48
 //@ ensures len(u.EntriesToSave) == 0 && u.Snapshot.Index != 0 ==> result >= 22 + 56
+//@ ensures result == 22 + 56 + uf("sumlim", ptr(u.EntriesToSave), len(u.EntriesToSave)) + ite(u.Snapshot.Index == 0, 48, as(*Snapshot, ptr(u.Snapshot)).snsize())
+
+// The Tan record of an Update (C13, "the encoding never exceeds the size the type advertises"):
+// written into a buffer of at least SizeUpperLimit() bytes, MarshalTo never indexes outside the buffer
+// (every store and sub-slice is a bounds obligation) and returns at most SizeUpperLimit().
+//@ extern encoding/binary PutUvarint
+//@ requires len(buf) >= 10
+//@ modifies elems(buf)
+//@ ensures result >= 1 && result <= 10
+//@ func (u *Update) MarshalTo [C13]
+//@ free requires sumdef(u.EntriesToSave) && uf("sumlim", ptr(u.EntriesToSave), len(u.EntriesToSave)) < 4611686018427387904 && len(u.EntriesToSave) < 4294967296
+//@ requires len(buf) >= 22 + 56 + uf("sumlim", ptr(u.EntriesToSave), len(u.EntriesToSave)) + ite(u.Snapshot.Index == 0, 48, as(*Snapshot, ptr(u.Snapshot)).snsize())
+//@ free requires filesdef(u.Snapshot.Files) && as(*Snapshot, ptr(u.Snapshot)).small()
+//@ modifies elems(buf)
+//@ ensures result1 == nil ==> result0 <= 22 + 56 + uf("sumlim", ptr(u.EntriesToSave), len(u.EntriesToSave)) + ite(u.Snapshot.Index == 0, 48, as(*Snapshot, ptr(u.Snapshot)).snsize())
+//@ loop 1 modifies elems(buf)
+//@ loop 1 invariant offset >= 2 && offset <= 62 + uf("sumlim", ptr(u.EntriesToSave), $i + 1)
 
 //@ func MustMarshal [C10 C13]
 //@ trusted wraps the generated Marshal of a message (allocation only; panics on error)
